@@ -152,6 +152,7 @@ class C04(NlpCheck):
         ("offsets",
          {'methods': ALLM, 'grids': ['uniform', 'geometric'], 'horizon': ['num'],
           'obj_kinds': ['at_tf'], 'ncons': (1, 3), 'scale_prob': 0.2, 'offset_prob': 0.8, 'con_grids': ['control'], 'roots': False,
+          'features': {'pc': 0.7, 'pcp': 0.7, 'vc': 0.6, 'vcp': 0.7},
           'Ns': [1, 2, 3, 3, 4, 5], 'Ms': [1, 2], 'degrees': [1, 2]}, 30, 400),
     ]
 
